@@ -107,7 +107,9 @@ class VariableScaler(VariableTransform):
             upper_bounds = upper_bounds - offsets
         if self._scales is not None:
             coefficients = coefficients * self._scales
-        self._equation_scaling = np.max(np.abs(coefficients), axis=-1)
+        # Rows that only contain zeros are not scaled:
+        scaling = np.max(np.abs(coefficients), axis=-1)
+        self._equation_scaling = np.where(scaling > 0, scaling, 1.0)
         assert self._equation_scaling is not None
         return (
             coefficients / self._equation_scaling[:, np.newaxis],
